@@ -143,6 +143,21 @@ Definition c5_chk_start (s : c5_ostep) : bool :=
 Definition c5_chk_trigev (s : c5_ostep) : bool :=
   forallb (fun d => c5_mem (d_id d) (c5_trig_ids (c5_outs s))) (c5_newly (c5_pre s) (c5_post s)).
 
+(* chained triggers: whatever became triggered in this step has triggered the downtimes chained to it that
+   were untriggered and inside their own window - with the same trigger time when the chained one is flexible *)
+Definition c5_chk_chain (s : c5_ostep) : bool :=
+  forallb (fun d' =>
+             forallb (fun cid =>
+                        match find_dt cid (c5_pre s) with
+                        | Some c =>
+                            if (d_trigger c =? 0) && c5_inwin (c5_now s) c then
+                              if d_fixed c then negb (c5_trig_of cid (c5_post s) =? 0)
+                              else c5_trig_of cid (c5_post s) =? d_trigger d'
+                            else true
+                        | None => true
+                        end) (d_triggers d'))
+          (c5_newly (c5_pre s) (c5_post s)).
+
 (* downtime_depth = number of downtimes in effect *)
 Definition c5_chk_depth (s : c5_ostep) : bool :=
   match c5_depth s with
@@ -157,7 +172,7 @@ Definition c5_step_fails (k : kind) (s : c5_ostep) : list Z :=
   ++ (if c5_chk_owned s then [] else [5]) ++ (if c5_chk_cleanup s then [] else [6])
   ++ (if c5_chk_result k s then [] else [7]) ++ (if c5_chk_add s then [] else [8])
   ++ (if c5_chk_start s then [] else [9]) ++ (if c5_chk_trigev s then [] else [10])
-  ++ (if c5_chk_depth s then [] else [11]).
+  ++ (if c5_chk_depth s then [] else [11]) ++ (if c5_chk_chain s then [] else [12]).
 
 (* ---- which operation sequences the statement quantifies over (checked by the oracle itself) ---- *)
 
